@@ -1,6 +1,9 @@
 #!/bin/sh
 # Development aid: statement coverage of /repo's non-test code reached by the checks.
 #   tools/cover.sh <outdir> [tier] [ids...]   -> <outdir>/cov.txt, <outdir>/func.txt, <outdir>/uncovered.txt
+# Limitation (measured): Go 1.23 instruments with -coverpkg only packages of the main module / workspace it builds in,
+# so only the CLI binary (built inside /repo; used by C12, C18, C20 and the CLI legs of others) reports counters; the
+# in-process generator driver (built in a scratch module that `replace`s /repo) writes none. The result is a lower bound.
 # Runs from a private copy of /verif (bin/ rebuilt there is not needed: vcheck reads VERIF_COVER at run time).
 OUT="$1"; TIER="${2:-quick}"; shift; shift
 mkdir -p "$OUT/raw"
